@@ -129,7 +129,7 @@ def fit_sel(sel, n):
     if k == "l":
         return ["l", [i % (2 * n) - n for i in sel[1]], sel[2]]
     if k == "m":
-        return ["m", [bool(sel[1][i % len(sel[1])]) for i in range(n)], True]
+        return ["m", [bool(sel[1][i % len(sel[1])]) for i in range(n)], sel[2]]
     return sel
 
 
@@ -428,11 +428,11 @@ RAW_SEL = st.one_of(
     st.tuples(st.integers(0, 100), st.booleans()).map(lambda t: ["i", t[0], t[1]]),
     gen.slice_st(4), gen.slice_st(4),
     st.tuples(st.lists(st.integers(0, 100), max_size=5), st.sampled_from(["list", "int64"])).map(lambda t: ["l", t[0], t[1] if t[0] else "int64"]),
-    st.lists(st.booleans(), min_size=1, max_size=6).map(lambda m: ["m", m, True]))
+    st.tuples(st.lists(st.booleans(), min_size=1, max_size=6), st.booleans()).map(lambda t: ["m", t[0], t[1]]))
 RAW_SEL_NOINT = st.one_of(
     gen.slice_st(4),
     st.tuples(st.lists(st.integers(0, 100), min_size=1, max_size=5), st.sampled_from(["list", "int64"])).map(lambda t: ["l", t[0], t[1]]),
-    st.lists(st.booleans(), min_size=1, max_size=6).map(lambda m: ["m", m, True]),
+    st.tuples(st.lists(st.booleans(), min_size=1, max_size=6), st.booleans()).map(lambda t: ["m", t[0], t[1]]),
     st.just(["e"]))
 
 
